@@ -116,6 +116,13 @@ def chain_matches(chain, curve, tol):
 
 
 def case(ctx):
+    """first plot of a fresh shape; then (history) an in-place change of the same object and a
+    second plot on a fresh figure, judged in the same way"""
+    rec = plot_case(ctx, None)
+    return rec
+
+
+def plot_case(ctx, _unused):
     import matplotlib
 
     matplotlib.use("Agg")
@@ -124,7 +131,7 @@ def case(ctx):
     import shapepy
 
     rng = ctx.rng
-    kind = rng.choice("SSUCCDDVEW")
+    kind = rng.choice("SSUCCDDMMNVEW")
     curved = rng.random() < 0.6
     spec, info = G.random_shape(rng, kind, None, curved, (rng.uniform(-5, 5), rng.uniform(-5, 5)) if rng.random() < 0.5 else (0, 0),
                                 rng.choice([1.0, 10.0, 50.0]))
@@ -133,6 +140,39 @@ def case(ctx):
         spec, info = G.random_blob(rng, (0, 0), 10.0, degree=rng.choice([2, 3, 3]), cw=(kind == "U"), mixed=rng.random() < 0.4)
     case = Case(ctx, {"shape": spec}, "%s-%s" % (kind, "curved" if G.spec_is_curved(spec) else "straight"))
     shape = G.build(spec)
+    judge_plot(case, shape)
+    # history: change the same object in place, plot again on a fresh figure
+    if hasattr(shape, "jordans") and not case.violations:
+        step = rng.choice(["invert", "scale", "move", "rotate"])
+        try:
+            if step == "invert":
+                if hasattr(shape, "invert"):
+                    shape.invert()
+                else:
+                    step = "scale"
+            if step == "scale":
+                shape.scale(2, 3)
+            elif step == "move":
+                shape.move(5, -3)
+            elif step == "rotate":
+                shape.rotate(0.5)
+        except Exception:
+            step = None
+        if step:
+            case.spec["then"] = step
+            case.count("plot:replot-after-%s" % step)
+            judge_plot(case, shape)
+    return case.finish()
+
+
+def judge_plot(case, shape, white_default=None):
+    import matplotlib
+
+    matplotlib.use("Agg")
+    from matplotlib.figure import Figure
+    from matplotlib.colors import to_rgba
+    import shapepy
+
     region = S.snap_shape(shape)
     fig = Figure()
     ax = fig.add_subplot(111)
@@ -143,7 +183,7 @@ def case(ctx):
     case.judged()
     if exc is not None:
         case.violate("plot raised %s" % exc_text(exc))
-        return case.finish()
+        return
     after = S.snap_shape(shape)
     if after != region:
         case.violate("plotting modified the shape", before=S.region_to_json(region), after=S.region_to_json(after))
@@ -152,13 +192,13 @@ def case(ctx):
     if region[0] == "empty":
         if patches or ax.get_facecolor() != default_face or ax.collections or ax.lines:
             case.violate("Empty draws something: %d patches, background %s" % (len(patches), ax.get_facecolor()))
-        return case.finish()
+        return
     if region[0] == "whole":
         if patches:
             case.violate("Whole adds %d patches" % len(patches))
         if ax.get_facecolor() == default_face:
             case.violate("Whole does not colour the background")
-        return case.finish()
+        return
     case.nontrivial = True
     comps = [region] if region[0] != "disjoint" else list(region[1])
     fills = []
@@ -170,7 +210,7 @@ def case(ctx):
             chains = parse_path(patch.get_path())
         except ValueError as err:
             case.violate("a patch has a malformed path: %s" % err)
-            return case.finish()
+            return
         (fills if filled else outlines).append((patch, chains))
     all_curves = O.region_curves(region)
     if len(fills) != len(comps):
@@ -245,4 +285,4 @@ def case(ctx):
             case.violate("no outline retraces a boundary with segment degrees %s: %s" % ([len(s) - 1 for s in c], why))
         else:
             rest.remove(hit)
-    return case.finish()
+    return
